@@ -123,6 +123,7 @@ type lockAccess struct {
 }
 
 type lockAnalysis struct {
+	anyFresh bool
 	p        *Prog
 	structs  map[string]*lockStruct
 	byField  map[*types.Var]*lockStruct
@@ -663,7 +664,7 @@ func (la *lockAnalysis) freshLocal(fn *Func, e ast.Expr) bool {
 			return false
 		}
 	}
-	fresh := false
+	fresh, notOnlyFresh := false, false
 	ast.Inspect(fn.Decl.Body, func(n ast.Node) bool {
 		var lhs []ast.Expr
 		var rhs []ast.Expr
@@ -691,11 +692,24 @@ func (la *lockAnalysis) freshLocal(fn *Func, e ast.Expr) bool {
 			}
 			if r != nil && la.isFreshExpr(r) {
 				fresh = true
+			} else if r != nil && !p.isNilExpr(r) {
+				// also assigned something that already exists (a map entry, a field): not only a new object
+				notOnlyFresh = true
 			}
 		}
 		return true
 	})
-	return fresh
+	if la.anyFresh {
+		return fresh
+	}
+	return fresh && !notOnlyFresh
+}
+
+// freshLocalAny: some assignment of the local is a newly created object (get-or-create shapes).
+func (la *lockAnalysis) freshLocalAny(fn *Func, e ast.Expr) bool {
+	la.anyFresh = true
+	defer func() { la.anyFresh = false }()
+	return la.freshLocal(fn, e)
 }
 
 func (la *lockAnalysis) isFreshExpr(r ast.Expr) bool {
